@@ -69,6 +69,17 @@ Fixpoint has_unusable_scheme (a : addr ip) : bool :=
   | _ => false
   end.
 
+(* helpers for the verdict on parsed texts *)
+Fixpoint before_at (l : bytes) : bytes := match l with [] => [] | c :: t => if c =? 64 then [] else c :: before_at t end.
+Definition has_at (l : bytes) : bool := existsb (fun c => c =? 64) l.
+Fixpoint lead_digits (l : bytes) : bytes :=
+  match l with c :: t => if (48 <=? c) && (c <=? 57) then c :: lead_digits t else [] | [] => [] end.
+Definition trailing_number (l : bytes) : option N :=
+  match rev (lead_digits (rev l)) with
+  | [] => None
+  | ds => Some (fold_left (fun acc c => 10 * acc + (c - 48)) ds 0)
+  end.
+
 Definition run_C16 (case obs : sx) : sx :=
   match case with
   | SL [t; sch; x] =>
@@ -86,9 +97,20 @@ Definition run_C16 (case obs : sx) : sx :=
         | _, _ => bad_case
         end
       else if is_sym "parse" t then
-        SL [obs; match obs with
-                 | SL [_; _; SN r] => if r =? 0 then bad "parsed-address-does-not-marshal-back" else ok
-                 | _ => ok end]
+        SL [obs; match obs, case with
+                 | SL [_; SB t2; SN r], SL [_; _; SB cand] =>
+                     if r =? 0 then bad "parsed-address-does-not-marshal-back"
+                     (* what was accepted must be the address the text spells: the identity / fingerprint
+                        part (everything before the first '@') is kept verbatim, and the final number
+                        (port, or in-memory address) keeps its value *)
+                     else if has_at cand && has_at t2 && negb (bytes_eqb (before_at cand) (before_at t2))
+                     then bad "accepted-text-names-another-identity-than-the-parsed-address"
+                     else match trailing_number cand, trailing_number t2 with
+                          | Some a, Some b => if a =? b then ok else bad "accepted-text-has-another-final-number-than-the-parsed-address"
+                          | _, _ => ok
+                          end
+                 | SL [_; _; SN r], _ => if r =? 0 then bad "parsed-address-does-not-marshal-back" else ok
+                 | _, _ => ok end]
       else bad_case
   | _ => bad_case
   end.
